@@ -100,6 +100,9 @@ fn cut_case_f64(ctx: &mut Ctx, x: &Series, edges: &[f64], nlabels: usize, right:
                     Cut::Err => ctx.count("cut_outside_err_ok"),
                 }
             }
+            if x.len() > 2 && edges.len() > 1 {
+                ctx.sample(|| format!("{} -> every element got the label of its unique enclosing interval / null label / Err", d()));
+            }
             ctx.distinct(&format!("cut|f64|{}|{}|{right}|{add_bounds}|{}", edges.len(), nlabels, x.len().min(12)));
         },
     }
